@@ -1,8 +1,14 @@
 package main
 
 import (
+	"context"
 	"fmt"
 	"strings"
+	"time"
+
+	"github.com/ipfs/go-graphsync"
+
+	"github.com/filecoin-project/go-data-transfer/v2/transport/graphsync/testharness"
 )
 
 // ---------- transport suites (C16, C09 close, C10 transport part) ----------
@@ -292,6 +298,49 @@ func runTransport(dir string, seed uint64, tier string) {
 			}
 			rs2 = append(rs2, tStep{Kind: "gincomingrequest", P: 2, Rid: 3, Msg: func() *msgSpec { m := restartReq(6, true); return &m }()})
 			s.run(fmt.Sprintf("restart-responder twice queued=%d", nq), rs2)
+		}
+	}
+	// (b2) closing while the remote requester cancels (C09 / C20): graphsync delivers the requestor-cancelled
+	// callback on the goroutine that also has to answer our Cancel; closing must return all the same
+	for _, viaCleanup := range []bool{false, true} {
+		rig := newTrRig(s.res, 1)
+		rig.exec(inc)
+		chs, _ := rig.tr.VerifSnapshot()
+		var ridReal *graphsync.RequestID
+		for _, c := range chs {
+			if c.RequestID != nil {
+				ridReal = c.RequestID
+			}
+		}
+		if ridReal != nil {
+			rig.mu.Lock()
+			rig.gs.beforeCancel = func(id graphsync.RequestID) {
+				if l := rig.gs.RequestorCancelledListener; l != nil { // (Shutdown unsubscribes first)
+					l(peerOf(2), testharness.NewFakeRequest(id, nil, graphsync.RequestTypeNew))
+				}
+			}
+			rig.mu.Unlock()
+			done := make(chan struct{})
+			go func() {
+				defer close(done)
+				if viaCleanup {
+					_ = rig.tr.Shutdown(context.Background())
+				} else {
+					_ = rig.tr.CloseChannel(context.Background(), rig.chidReal(kr))
+				}
+			}()
+			select {
+			case <-done:
+			case <-time.After(3 * time.Second):
+				what := "CloseChannel"
+				if viaCleanup {
+					what = "Shutdown"
+				}
+				for _, prop := range []string{"C09", "C20"} {
+					s.res.fail(monitorFailure{Property: prop, CaseID: 0, Signature: "close-hangs-while-requester-cancels:" + what,
+						What: what + " did not return within 3s when the remote requester's cancellation was being delivered (on graphsync's single response goroutine) at the moment the channel was closed", Input: "incoming request, then " + what + " with the requestor-cancelled callback running before graphsync answers Cancel"})
+				}
+			}
 		}
 	}
 	// (c) generated callback sequences over several channels and requests, cleanup anywhere
